@@ -180,6 +180,7 @@ fn build(op: &Op) -> WorldRt {
             let out: Src = Arc::new(callbag::share(p[0].clone()));
             probe_world(out, rec_i64())
         },
+        Op::Net(name) => build_net(name),
         Op::ForEach(inner) => {
             let inner = inner.clone();
             let fe = callbag::for_each(|x: i64| call(CALL_FOREACH, x));
@@ -217,4 +218,70 @@ pub fn spec(op: Op, e: u32, d: u32) -> WorldSpec {
     }
     let name = format!("{:?}", op);
     WorldSpec { name, build: build_for(&op), op, cfg }
+}
+
+fn rec_t2() -> RecFn<(i64, i64)> {
+    Arc::new(|x: &(i64, i64)| Val::T(2, [x.0, x.1, 0]))
+}
+
+pub const NETS: &[&str] = &[
+    "take2(merge2)",
+    "merge2(map,skip1)",
+    "concat2(take1,.)",
+    "take2(concat2)",
+    "skip1(combine2)",
+    "take1(flatten)",
+    "share(merge2)",
+    "merge2(.,concat2)",
+    "combine2(filter,take1)",
+];
+
+/// Networks of several real operators over puppets: the protocol oracles (C01-C05, C17) are
+/// operator-agnostic, so interactions between operators are explored with the same monitors.
+fn build_net(name: &str) -> WorldRt {
+    let p = puppets(3);
+    let b = |v: Vec<Src>| v.into_boxed_slice();
+    match name {
+        "take2(merge2)" => probe_world(Arc::new(callbag::take(2)(Arc::new(callbag::merge(b(vec![p[0].clone(), p[1].clone()]))) as Src)), rec_i64()),
+        "merge2(map,skip1)" => probe_world(
+            Arc::new(callbag::merge(b(vec![apply_unary(&Op::Map, p[0].clone()), apply_unary(&Op::Skip(1), p[1].clone())]))),
+            rec_i64(),
+        ),
+        "concat2(take1,.)" => probe_world(Arc::new(callbag::concat(b(vec![apply_unary(&Op::Take(1), p[0].clone()), p[1].clone()]))), rec_i64()),
+        "take2(concat2)" => probe_world(Arc::new(callbag::take(2)(Arc::new(callbag::concat(b(vec![p[0].clone(), p[1].clone()]))) as Src)), rec_i64()),
+        "skip1(combine2)" => {
+            let c: Arc<Source<(i64, i64)>> = Arc::new(callbag::combine((p[0].clone(), p[1].clone())));
+            probe_world(Arc::new(callbag::skip(1)(c)), rec_t2())
+        },
+        "take1(flatten)" => {
+            let pool = 2u8;
+            let inners: Vec<Arc<Puppet<i64>>> = (1..=pool).map(int_puppet).collect();
+            let outer: Arc<Puppet<Src>> = Puppet::new(
+                0,
+                Box::new(move |s, _k| {
+                    let menu: Vec<u8> = (1..=pool).map(|i| opt::INNER0 + i).collect();
+                    let c = choose_opt(Kind::Event, What::Pick(s), &menu);
+                    let j = c - opt::INNER0;
+                    let src: Src = Arc::new(inners[(j - 1) as usize].source());
+                    (src, Val::Src(j))
+                }),
+            );
+            let f: Src = Arc::new(callbag::flatten(outer.source()));
+            probe_world(Arc::new(callbag::take(1)(f)), rec_i64())
+        },
+        "share(merge2)" => {
+            let m: Src = Arc::new(callbag::merge(b(vec![p[0].clone(), p[1].clone()])));
+            probe_world(Arc::new(callbag::share(m)), rec_i64())
+        },
+        "merge2(.,concat2)" => {
+            let c: Src = Arc::new(callbag::concat(b(vec![p[1].clone(), p[2].clone()])));
+            probe_world(Arc::new(callbag::merge(b(vec![p[0].clone(), c]))), rec_i64())
+        },
+        "combine2(filter,take1)" => {
+            let c: Arc<Source<(i64, i64)>> =
+                Arc::new(callbag::combine((apply_unary(&Op::Filter(Pred::Odd), p[0].clone()), apply_unary(&Op::Take(1), p[1].clone()))));
+            probe_world(c, rec_t2())
+        },
+        other => panic!("unknown net {other}"),
+    }
 }
